@@ -492,3 +492,21 @@ package meta
 //@ func deleteMetadata
 //@   property C01
 //@   ensures [missing_entry_still_loses_its_garbage_mark] !haveObject ==> garbageMarkLookedUp()
+
+// Reviving takes the object's garbage mark away, whichever way it had been removed (plain
+// mark or tombstone - a tombstoned object carries the mark as well): every successful revival
+// takes one off the garbage counter.
+//@ func inGarbage
+//@   property C02
+//@   assigns nothing
+//@   ensures [one_of_three_verdicts] result == statusAvailable || result == statusGCMarked || result == statusTombstoned
+//@ ghost pred garbageCounterTakenDown() bool
+//@ callrule c02_revive_gc_decrement in (*DB).ReviveObject$1
+//@   property C02
+//@   callee metabase.updateCounter
+//@   pureeffect
+//@   defines err == nil && a1 == gcCounter && a2 == -1 ==> garbageCounterTakenDown()
+//@ func (*DB).ReviveObject$1
+//@   property C02
+//@   valid ErrObjectWasNotRemoved != nil && ErrReviveFromContainerGarbage != nil
+//@   ensures [every_revival_takes_one_off_the_garbage_counter] err == nil ==> garbageCounterTakenDown()
